@@ -793,7 +793,7 @@ class Lattice:
         """
         if u is not None:
             return self._mps_fix_u[u]
-        return self._perm
+        return np.sort(self._perm)
 
     def mps_lat_idx_fix_u(self, u=None):
         """Similar as :meth:`mps_idx_fix_u`, but return also the corresponding lattice indices.
@@ -2242,7 +2242,7 @@ class IrregularLattice(Lattice):
     def mps_idx_fix_u(self, u=None):
         if u is not None:
             return self._mps_fix_u[u]
-        return self._perm[self._perm != self._REMOVED]
+        return np.sort(self._perm[self._perm != self._REMOVED])
 
     # make possible_couplings and possible_multi_couplings work
 
@@ -2427,7 +2427,7 @@ class HelicalLattice(Lattice):
     def mps_idx_fix_u(self, u=None):
         if u is not None:
             return self._mps_fix_u[u]
-        return self._perm[self._perm != self._REMOVED]
+        return np.sort(self._perm[self._perm != self._REMOVED])
 
     # the regular lattice has the same order for the MPS,
     # only the division into unit cells is different
